@@ -46,7 +46,7 @@ MANDATORY = ["read:label", "read:position", "read:tol", "read:dataset", "read:ab
 
 
 def budget(tier):
-    return {"quick": dict(examples=400, shards=1), "thorough": dict(examples=5000, shards=16)}[tier]
+    return {"quick": dict(examples=900, shards=1), "thorough": dict(examples=5000, shards=16)}[tier]
 
 
 # ----------------------------------------------------------------------------------------------
